@@ -54,6 +54,8 @@ chk("C17","translation_validation","Exhaustive agreement of the one translation 
     "Trusted base: go/types constant evaluation; the record parser in verif/internal/checks/c17.go; the pinned digests; verif/internal/isa for instruction lengths of the start sequence", "table agreement (go/types constants vs image records vs asm records) + AST/SSA who-may-write", "DESIGN.md 5/C17")
 chk("C19","other","run() of cim2bin and cim2cas interpreted (after package init) with the buffered writer as an event sink and a whitelist of library models; the ordered guarded write sequence equals the container layout as a function of offset, file length, name bytes and error results; the body is the very slice ReadFile returned. flag/os/bufio behaviour is trusted.",
     TB+"; models of flag.*Var/Parse, os.ReadFile, os.Create, bufio.NewWriter, (*bufio.Writer).Write/WriteByte/Flush", "abstract interpretation with an event sink; canonical sequence comparison", "DESIGN.md 5/C19")
+chk("C18","other","Partly decided: the memory image NewMemory builds (by interpreting package init and NewMemory) decodes to JP FF03h / JP bdos with HALT at FF03h; the BDOS stub's machine code is explored path by path with the reference model (function 2: OUT (0),E then RET; function 9: read (DE), RET at '$', else OUT, INC DE, loop; no memory write; SP restored) and one loop iteration from an arbitrary state is summarised; IO.Out/IO.In/Memory.Get/Set summarised on the Go side. The for-all-strings statement (induction over the string, appendix A.2), console writer errors and cmd/zexdoc's use are NOT decided.",
+    TB+ISA+"; C01 (the emulator executes each opcode as the reference model says); io.Writer/log.Logger library semantics", "abstract interpretation of the Go side + symbolic path exploration of the installed Z80 machine code with the reference model", "DESIGN.md 5/C18")
 
 m = {"version": 1,
      "setup_cmd": "GOFLAGS=-mod=mod GOPROXY=off GOSUMDB=off GOTOOLCHAIN=local GOWORK=off go build -o bin/z80verify ./cmd/z80verify",
